@@ -39,7 +39,7 @@ def run_one(e: dict, kind: str, verbose: bool) -> dict:
         apply_edit(tmp, e)
         res = {}
         for prop in e["props"]:
-            env = dict(os.environ, VERIF_REPO=str(tmp), JPSA_NO_EVIDENCE="1")
+            env = dict(os.environ, VERIF_REPO=str(tmp), JPSA_NO_EVIDENCE="1", JPSA_JOBS="2")
             pr = subprocess.run([sys.executable, "-B", "-m", "jpsa", "check", prop], cwd=V, env=env, capture_output=True, text=True)
             res[prop] = (pr.returncode, pr.stdout + pr.stderr)
         return {"id": e["id"], "kind": kind, "res": res}
